@@ -503,8 +503,11 @@ func (r *Recomposer) recomp(v any, rv reflect.Value) {
 			}
 		}
 	case reflect.Interface:
-		v = r.recompAny(v)
-		rv.Set(reflect.ValueOf(v))
+		if v = r.recompAny(v); v == nil {
+			rv.Set(reflect.Zero(rv.Type()))
+		} else {
+			rv.Set(reflect.ValueOf(v))
+		}
 
 	case reflect.Bool:
 		rv.Set(reflect.ValueOf(v))
@@ -567,8 +570,11 @@ func (r *Recomposer) setValue(v any, rv reflect.Value, sf *reflect.StructField) 
 	case reflect.String:
 		rv.Set(reflect.ValueOf(v).Convert(rv.Type()))
 	case reflect.Interface:
-		v = r.recompAny(v)
-		rv.Set(reflect.ValueOf(v))
+		if v = r.recompAny(v); v == nil {
+			rv.Set(reflect.Zero(rv.Type()))
+		} else {
+			rv.Set(reflect.ValueOf(v))
+		}
 	case reflect.Ptr:
 		ev := reflect.New(rv.Type().Elem())
 		r.recomp(v, ev)
